@@ -48,6 +48,8 @@ type Config struct {
 	// MinServices etc. for concurrency worlds.
 	MinServices int
 	MinMethods  int
+	// AltNames uses a second set of service names (for a second file of the same world).
+	AltNames bool
 }
 
 // Feature names.
@@ -93,6 +95,7 @@ const (
 	RPathQueryTS   = "risky_path_plus_query_bodyless"
 	RDupMethodHeader = "risky_same_header_on_two_methods"
 	RPathNoSlash     = "risky_path_without_leading_slash"
+	RMockRecursive   = "risky_mock_with_recursive_type"
 	ROptionalOverride = "risky_optional_method_header_overrides_required_service_header"
 	RSameMethodName  = "risky_same_method_name_in_two_services"
 )
@@ -123,6 +126,7 @@ type g struct {
 	msgN int
 	routes []route
 	usedM  map[string]bool
+	annMsgs []string // names of annotated message types usable as nested or top-level bodies
 	usedHdrM map[string]bool
 }
 
@@ -192,6 +196,10 @@ func World(cfg Config) *spec.World {
 	for _, f := range cfg.Force {
 		x.on[f] = true
 	}
+	if cfg.Mock && !x.on[RMockRecursive] {
+		// the mock generator recurses without bound on recursive message types (probe world only)
+		delete(x.on, FRecursive)
+	}
 	name := cfg.Name
 	x.pkg = name + ".v1"
 	x.w = &spec.World{Name: name, Mock: cfg.Mock}
@@ -219,6 +227,9 @@ func World(cfg Config) *spec.World {
 		nSvc = x.cfg.MinServices
 	}
 	svcNames := []string{"Alpha", "BetaService", "GammaAPI"}
+	if cfg.AltNames {
+		svcNames = []string{"Delta", "EpsilonService", "ZetaAPI"}
+	}
 	for i := 0; i < nSvc; i++ {
 		x.service(svcNames[i], i)
 	}
@@ -237,7 +248,10 @@ func contains(xs []string, s string) bool {
 func (x *g) fq(name string) string { return "." + x.pkg + "." + name }
 
 func (x *g) sharedTypes() {
-	if x.has(FEnum) || x.has(FEnumValue) || x.has(FEnumNumber) {
+	if x.has(FEnumNumber) {
+		x.f.Enums = append(x.f.Enums, &spec.Enum{Name: "Shade", Values: []*spec.EnumValue{{Name: "SHADE_UNSPECIFIED", Number: 0}, {Name: "SHADE_LIGHT", Number: 1}, {Name: "SHADE_DARK", Number: 5}}})
+	}
+	if x.has(FEnum) || x.has(FEnumValue) {
 		e := &spec.Enum{Name: "Color", Values: []*spec.EnumValue{{Name: "COLOR_UNSPECIFIED", Number: 0}, {Name: "COLOR_RED", Number: 1}, {Name: "COLOR_DARK_BLUE", Number: 2}, {Name: "COLOR_X9", Number: 7}}}
 		if x.has(FEnumValue) {
 			for i, v := range e.Values {
@@ -247,7 +261,7 @@ func (x *g) sharedTypes() {
 		}
 		x.f.Enums = append(x.f.Enums, e)
 	}
-	if x.has(FNested) || x.has(FMap) || x.has(FRepeated) || x.has(FOneof) || x.has(FFlatten) || x.has(FOneofDisc) {
+	if x.has(FNested) || x.has(FMap) || x.has(FRepeated) || x.has(FOneof) || x.has(FFlatten) || x.has(FOneofDisc) || x.has(FUnwrap) || x.has(FEmptyBehav) {
 		it := &spec.Message{Name: "Item"}
 		it.Fields = append(it.Fields, &spec.Field{Name: "label", Number: 1, Kind: "string"}, &spec.Field{Name: "qty", Number: 2, Kind: "int64"},
 			&spec.Field{Name: "ok", Number: 3, Kind: "bool"})
@@ -268,6 +282,7 @@ func (x *g) sharedTypes() {
 			{Name: "next", Number: 3, Kind: "message", TypeName: x.fq("Node")}}}
 		x.f.Messages = append(x.f.Messages, n)
 	}
+	x.annotatedTypes()
 	if x.has(FCustomError) {
 		e := &spec.Message{Name: "NotFoundError", Fields: []*spec.Field{{Name: "resource", Number: 1, Kind: "string"}, {Name: "code", Number: 2, Kind: "int32"},
 			{Name: "hints", Number: 3, Kind: "string", Card: "repeated"}}}
@@ -331,6 +346,10 @@ func (x *g) bodyField(m *spec.Message, taken map[string]bool, num int32) *spec.F
 	}
 	if x.has(FTimestamp) {
 		opts = append(opts, func() { f.Kind = "message"; f.TypeName = ".google.protobuf.Timestamp" })
+	}
+	if len(x.annMsgs) > 0 {
+		ann := func() { f.Kind = "message"; f.TypeName = x.fq(pick(x.r, x.annMsgs)) }
+		opts = append(opts, ann, ann)
 	}
 	pick(x.r, opts)()
 	// cardinality
@@ -649,6 +668,15 @@ func (x *g) method(s *spec.Service, name string, idx int, usedRoutes map[string]
 	}
 	m.In, m.Out = x.fq(reqName), x.fq(respName)
 	x.f.Messages = append(x.f.Messages, req, resp)
+	if len(x.annMsgs) > 0 {
+		// annotated type in top-level position (where the custom codec is what the server and client call)
+		if x.r.chance(1, 3) {
+			m.Out = x.fq(pick(x.r, x.annMsgs))
+		}
+		if !bodyless && nVars == 0 && !wantQuery && x.r.chance(1, 4) {
+			m.In = x.fq(pick(x.r, x.annMsgs))
+		}
+	}
 	s.Methods = append(s.Methods, m)
 }
 
@@ -669,4 +697,99 @@ func swapCase(s string) string {
 		return strings.ToUpper(s)
 	}
 	return strings.ToLower(s)
+}
+
+func sp(s string) *string { return &s }
+func bp(b bool) *bool     { return &b }
+
+// annotatedTypes defines one dedicated message per JSON-mapping annotation feature
+// (at most one annotation kind per message).
+func (x *g) annotatedTypes() {
+	add := func(m *spec.Message) {
+		x.f.Messages = append(x.f.Messages, m)
+		x.annMsgs = append(x.annMsgs, m.Name)
+	}
+	ts := ".google.protobuf.Timestamp"
+	if x.has(FInt64Number) {
+		add(&spec.Message{Name: "AnnInt64", Fields: []*spec.Field{
+			{Name: "big", Number: 1, Kind: "int64", Int64Encoding: "NUMBER"},
+			{Name: "ubig", Number: 2, Kind: "uint64", Int64Encoding: "NUMBER"},
+			{Name: "plain", Number: 3, Kind: "int64"},
+			{Name: "as_string", Number: 4, Kind: "int64", Int64Encoding: "STRING"},
+			{Name: "note", Number: 5, Kind: "string"}}})
+	}
+	if x.has(FEnumValue) {
+		add(&spec.Message{Name: "AnnEnum", Fields: []*spec.Field{
+			{Name: "color", Number: 1, Kind: "enum", TypeName: x.fq("Color")},
+			{Name: "colors", Number: 2, Kind: "enum", TypeName: x.fq("Color"), Card: "repeated"},
+			{Name: "note", Number: 3, Kind: "string"}}})
+	}
+	if x.has(FEnumNumber) {
+		add(&spec.Message{Name: "AnnEnumNum", Fields: []*spec.Field{
+			{Name: "shade", Number: 1, Kind: "enum", TypeName: x.fq("Shade"), EnumEncoding: "NUMBER"},
+			{Name: "plain_shade", Number: 2, Kind: "enum", TypeName: x.fq("Shade")},
+			{Name: "note", Number: 3, Kind: "string"}}})
+	}
+	if x.has(FNullable) {
+		add(&spec.Message{Name: "AnnNullable", Fields: []*spec.Field{
+			{Name: "nick", Number: 1, Kind: "string", Card: "optional", Nullable: bp(true)},
+			{Name: "age", Number: 2, Kind: "int32", Card: "optional", Nullable: bp(true)},
+			{Name: "plain_opt", Number: 3, Kind: "bool", Card: "optional"},
+			{Name: "note", Number: 4, Kind: "string"}}})
+	}
+	if x.has(FEmptyBehav) {
+		add(&spec.Message{Name: "AnnEmpty", Fields: []*spec.Field{
+			{Name: "as_null", Number: 1, Kind: "message", TypeName: x.fq("Other"), EmptyBehavior: "NULL"},
+			{Name: "omitted", Number: 2, Kind: "message", TypeName: x.fq("Other"), EmptyBehavior: "OMIT"},
+			{Name: "kept", Number: 3, Kind: "message", TypeName: x.fq("Other"), EmptyBehavior: "PRESERVE"},
+			{Name: "note", Number: 4, Kind: "string"}}})
+	}
+	if x.has(FTsFormat) {
+		add(&spec.Message{Name: "AnnTs", Fields: []*spec.Field{
+			{Name: "secs", Number: 1, Kind: "message", TypeName: ts, TimestampFormat: "UNIX_SECONDS"},
+			{Name: "millis", Number: 2, Kind: "message", TypeName: ts, TimestampFormat: "UNIX_MILLIS"},
+			{Name: "day", Number: 3, Kind: "message", TypeName: ts, TimestampFormat: "DATE"},
+			{Name: "rfc", Number: 4, Kind: "message", TypeName: ts, TimestampFormat: "RFC3339"},
+			{Name: "plain_ts", Number: 5, Kind: "message", TypeName: ts},
+			{Name: "note", Number: 6, Kind: "string"}}})
+	}
+	if x.has(FBytesEnc) {
+		add(&spec.Message{Name: "AnnBytes", Fields: []*spec.Field{
+			{Name: "hex", Number: 1, Kind: "bytes", BytesEncoding: "HEX"},
+			{Name: "b64url", Number: 2, Kind: "bytes", BytesEncoding: "BASE64URL"},
+			{Name: "b64raw", Number: 3, Kind: "bytes", BytesEncoding: "BASE64_RAW"},
+			{Name: "b64urlraw", Number: 4, Kind: "bytes", BytesEncoding: "BASE64URL_RAW"},
+			{Name: "b64", Number: 5, Kind: "bytes", BytesEncoding: "BASE64"},
+			{Name: "plain_bytes", Number: 6, Kind: "bytes"},
+			{Name: "note", Number: 7, Kind: "string"}}})
+	}
+	if x.has(FFlatten) {
+		add(&spec.Message{Name: "AnnFlat", Fields: []*spec.Field{
+			{Name: "id", Number: 1, Kind: "string"},
+			{Name: "addr", Number: 2, Kind: "message", TypeName: x.fq("Other"), Flatten: true, FlattenPrefix: sp("addr_")},
+			{Name: "bare", Number: 3, Kind: "message", TypeName: x.fq("Item"), Flatten: true}}})
+	}
+	if x.has(FOneofDisc) {
+		add(&spec.Message{Name: "AnnDisc", Oneofs: []*spec.Oneof{{Name: "body", HasConfig: true, Discriminator: "type"}}, Fields: []*spec.Field{
+			{Name: "id", Number: 1, Kind: "string"},
+			{Name: "text_v", Number: 2, Kind: "message", TypeName: x.fq("Other"), Oneof: "body", OneofValue: sp("text")},
+			{Name: "item_v", Number: 3, Kind: "message", TypeName: x.fq("Item"), Oneof: "body"}}})
+		add(&spec.Message{Name: "AnnDiscFlat", Oneofs: []*spec.Oneof{{Name: "body", HasConfig: true, Discriminator: "kind", Flatten: true}}, Fields: []*spec.Field{
+			{Name: "id", Number: 1, Kind: "string"},
+			{Name: "text_v", Number: 2, Kind: "message", TypeName: x.fq("Other"), Oneof: "body", OneofValue: sp("text")},
+			{Name: "item_v", Number: 3, Kind: "message", TypeName: x.fq("Item"), Oneof: "body", OneofValue: sp("item")}}})
+	}
+	if x.has(FUnwrap) {
+		// map-value unwrap: a wrapper with one unwrapped repeated field, used as a map value
+		x.f.Messages = append(x.f.Messages, &spec.Message{Name: "ItemList", Fields: []*spec.Field{
+			{Name: "items", Number: 1, Kind: "message", TypeName: x.fq("Item"), Card: "repeated", Unwrap: true}}})
+		add(&spec.Message{Name: "AnnUnwrapHolder", Fields: []*spec.Field{
+			{Name: "groups", Number: 1, Kind: "message", TypeName: x.fq("ItemList"), Card: "map", MapKey: "string"},
+			{Name: "note", Number: 2, Kind: "string"}}})
+		// root unwrap: the whole message is the array / the map
+		add(&spec.Message{Name: "AnnRootList", Fields: []*spec.Field{
+			{Name: "items", Number: 1, Kind: "message", TypeName: x.fq("Item"), Card: "repeated", Unwrap: true}}})
+		add(&spec.Message{Name: "AnnRootMap", Fields: []*spec.Field{
+			{Name: "by_key", Number: 1, Kind: "message", TypeName: x.fq("Item"), Card: "map", MapKey: "string", Unwrap: true}}})
+	}
 }
